@@ -351,7 +351,8 @@ fn a_bol_hasbol<const N: usize>(multi: bool) {
     let want = leftmost::<N, _>(start, len, |j| {
         if j == 0 || (multi && j < len && m.search[j - 1] == '\n') { Some(j) } else { None }
     });
-    kani::cover!(!multi || matches!(want, Some((s, _)) if s > start), "line start found after the search start (flag m)");
+    kani::cover!(!multi || N < 3 || matches!(want, Some((s, _)) if s > start), "line start found after the search start (flag m)");
+    kani::cover!(!multi || matches!(want, Some((s, _)) if s > 0), "match at a line start after a newline (flag m)");
     kani::cover!(want.is_none() && len > 0 && m.search[len - 1] == '\n' || !multi, "only a final newline follows: no match");
     kani::cover!(want.is_none(), "no match");
     let r = compare_search(&mut m, start, want);
